@@ -1,4 +1,4 @@
-import Sparrow.Proofs.BakeComposed
+import Sparrow.Proofs.BakeComposedVis
 import Sparrow.Proofs.PolygonFnEquiv
 import Sparrow.Proofs.VisibilityFnEquiv
 import Sparrow.Proofs.BakeGlueEquiv
@@ -266,7 +266,7 @@ theorem checkPoint2PatchVisibility_full_eq (thr eta : ℝ) (x : Nat → ℝ) (pc
 end Sparrow.Props.C07.PolygonFn
 
 namespace Sparrow.Props.C07.Composed
-open Sparrow Sparrow.Generated.BakeGlue Sparrow.Generated.BakeKernels Sparrow.Generated.UniversalFn Sparrow.Generated.VisibilityFn
+open Sparrow Sparrow.Generated.BakeGlue Sparrow.Generated.BakeKernels Sparrow.Generated.VisibilityFn
 
 /-- **the stored visibility matrix of the composed text is the model's line of sight**: entry `(i, j)` holds iff `i < j` and no patch
     of the scene hides the two centroids from each other (`visibleThroughAll`) -/
